@@ -574,3 +574,28 @@ Proof.
   intros Hb. destruct (flip_y_total b Hb) as [c Hc]. exists c. split; [exact Hc|].
   destruct (flip_y_spec b c Hb Hc) as [Hw Hi]. split; [exact Hw|]. split; [now apply flip_y_involutive | exact Hi].
 Qed.
+
+(* the cells of a grid partition, explicitly: one cell per coordinate of the scaled-down box *)
+Lemma grid_cells_explicit b s : wf b -> 0 < s -> s < u32_lim ->
+  iter_bbox_grid b s = Ok (if is_empty b then [] else map (cell_of b s) (iter_coords (meta_of b s))).
+Proof.
+  intros Hb Hs Hs2. pose proof Hb as Hb'. wfd Hb.
+  unfold iter_bbox_grid. destruct (s =? 0) eqn:E0; [lia|].
+  unfold scale_down. rewrite E0. fold (meta_of b s).
+  set (coords := iter_coords (meta_of b s)).
+  assert (Hcoords : forall p, In p coords -> fst p <= x_max b / s /\ snd p <= y_max b / s /\ In_box (meta_of b s) (fst p) (snd p)).
+  { intros [mx my] Hp. apply iter_coords_In in Hp. pose proof Hp as Hp'. unfold In_box, meta_of in Hp.
+    cbn [fst snd level x_min y_min x_max y_max bmax] in *. tauto. }
+  destruct (is_empty b) eqn:Eb.
+  - rewrite (sequence_map_ok _ (fun p => set_empty (cell_of b s p))).
+    2:{ intros [mx my] Hp. destruct (Hcoords _ Hp) as (A & B & _). cbn [fst snd] in *.
+        rewrite (grid_cell_eval b s mx my Hb' Hs Hs2 A B). now rewrite Eb. }
+    cbn [obind]. rewrite filter_all_false; [reflexivity|].
+    intros c Hc. apply in_map_iff in Hc. destruct Hc as (p & <- & _). reflexivity.
+  - rewrite (sequence_map_ok _ (cell_of b s)).
+    2:{ intros [mx my] Hp. destruct (Hcoords _ Hp) as (A & B & _). cbn [fst snd] in *.
+        rewrite (grid_cell_eval b s mx my Hb' Hs Hs2 A B). now rewrite Eb. }
+    cbn [obind]. rewrite filter_all_true; [reflexivity|].
+    intros c Hc. apply in_map_iff in Hc. destruct Hc as (p & <- & Hp).
+    destruct (Hcoords _ Hp) as (_ & _ & C). rewrite (cell_nonempty b s p Hb' Hs Eb C). reflexivity.
+Qed.
